@@ -37,13 +37,7 @@ W = None  # the current world
 
 KIND_RANK = {"a": 3, "b": 2, "c": 1}
 
-OPTION_NAMES = [
-    "DUMP_PRE_ERROR_STATE", "DUMP_EXCEPTIONS", "DUMP_SCHEDULE_TASK", "DUMP_CONTINUE_TASK",
-    "DUMP_SCHEDULE_BATCH", "DUMP_FLUSH_BATCH", "DUMP_DEPENDENCIES", "DUMP_COMPUTED",
-    "DUMP_NEW_TASKS", "DUMP_YIELD_RESULTS", "DUMP_QUEUED_RESULTS", "DUMP_CONTEXTS", "DUMP_SYNC",
-    "DUMP_STACK", "DUMP_SCHEDULER_STATE", "DUMP_SYNC_CALLS", "COLLECT_PERF_STATS",
-    "ENABLE_COMPLEX_ASSERTIONS", "KEEP_DEPENDENCIES",
-]
+from .prog import OPTION_NAMES
 _DEFAULTS = {n: getattr(_dbg.options, n) for n in OPTION_NAMES}
 _DEFAULTS["MAX_TASK_STACK_SIZE"] = _dbg.options.MAX_TASK_STACK_SIZE
 _DEFAULTS["SCHEDULER_STATE_DUMP_INTERVAL"] = _dbg.options.SCHEDULER_STATE_DUMP_INTERVAL
@@ -379,12 +373,12 @@ class World(object):
     def step_begin(self, tc, sid, leaves, exc):
         """Called right after a task body is (re)entered: at its start (sid None) and after each yield."""
         tid = tc.tid
-        if W is not self:
-            W.v("stale-task-ran", "a task body of an earlier computation (task %s) ran during a later computation" % (tid,))
         if exc is not None and isinstance(exc, GeneratorExit):
             self.closing.add(tid)
             self.last_yield.pop(tid, None)
             return
+        if W is not self:
+            W.v("stale-task-ran", "a task body of an earlier computation (task %s) ran during a later computation" % (tid,))
         self.nsteps += 1
         self.transitions += 1
         n = self.steps.get(tid, 0) + 1
@@ -808,17 +802,33 @@ class World(object):
             self.v("ctx-left-active", "contexts still active after the computation: %s" % (self.ctx_stack,))
 
     def dispose(self):
-        """drop references and collect (generators of never-finished tasks get closed here, with
-        monitors detached)"""
+        """detach the world: from here on nothing is judged.  The caller drops its reference and, if
+        tasks were left unfinished, collects garbage at once so that their generators are closed now
+        (with the monitors detached) and not at an arbitrary moment of a later execution."""
         global W
         self.chk_ctx = False
-        self.viol = []  # from here on nothing is judged
-        self.keep = None
-        self.tasks = None
-        self.last_yield = None
-        self.shared_tasks = None
-        self.errs = None
-        self.exc = None
+        self.viol = []
+        if W is self:
+            W = NULLW
+
+
+class _NullWorld(object):
+    """stands in for the current world between executions: swallows every callback"""
+
+    prio_mode = "default"
+    chk_ctx = False
+    in_ctx_exit = 1
+    in_ctx_enter = 1
+    active = {}
+
+    def __getattr__(self, name):
+        return self._noop
+
+    def _noop(self, *a, **k):
+        return None
+
+
+NULLW = _NullWorld()
 
 
 def _no_dict(s):
